@@ -43,7 +43,9 @@ Inductive pyval :=
 | VTuple (l : list pyval)                (* tuple: immutable, elements by value *)
 | VObj (cls : bytes) (fs : list pyval)   (* frozen attrs instance: class name, field values in attr.fields order *)
 | VIDict (h : handle)                    (* ImmutableDict whose _data is the dict cell h *)
-| VRef (h : handle).                     (* a mutable dict or list, by identity *)
+| VRef (h : handle)                      (* a mutable dict or list, by identity *)
+| VOList (l : list pyval)                (* a list that no one else holds (result of copy.deepcopy) *)
+| VOMap (mutable : bool) (items : list (atom * pyval)).  (* idem: a dict (true) / an ImmutableDict (false) *)
 
 Inductive cell :=
 | PyDict (items : list (atom * pyval))   (* insertion order; keys pairwise distinct *)
@@ -242,8 +244,12 @@ Fixpoint freeze (f : nat) (s : store) (v : pyval) : option pyval :=
       match v with
       | VNone => Some VNone
       | VAtom a => Some (VAtom a)
-      | VTuple l => option_map VTuple (seq_opt (map (freeze f' s) l))
+      | VTuple l | VOList l => option_map VTuple (seq_opt (map (freeze f' s) l))
       | VObj c l => option_map (VObj c) (seq_opt (map (freeze f' s) l))
+      | VOMap _ it =>
+          option_map VTuple
+            (seq_opt (map (fun kv => option_map (fun x => VTuple [VAtom (fst kv); x])
+                                                (freeze f' s (snd kv))) it))
       | VIDict h | VRef h =>
           match lookup s h with
           | Some (PyDict it) =>
@@ -256,10 +262,38 @@ Fixpoint freeze (f : nat) (s : store) (v : pyval) : option pyval :=
       end
   end.
 
+(* copy.deepcopy: same shape, every container replaced by a fresh one that
+   nobody else holds *)
+Fixpoint deepcopy (f : nat) (s : store) (v : pyval) : option pyval :=
+  match f with
+  | O => None
+  | S f' =>
+      let items := fun it => seq_opt (map (fun kv => option_map (pair (fst kv)) (deepcopy f' s (snd kv))) it) in
+      match v with
+      | VNone => Some VNone
+      | VAtom a => Some (VAtom a)
+      | VTuple l => option_map VTuple (seq_opt (map (deepcopy f' s) l))
+      | VOList l => option_map VOList (seq_opt (map (deepcopy f' s) l))
+      | VObj c l => option_map (VObj c) (seq_opt (map (deepcopy f' s) l))
+      | VOMap m it => option_map (VOMap m) (items it)
+      | VIDict h =>
+          match lookup s h with
+          | Some (PyDict it) => option_map (VOMap false) (items it)
+          | _ => None
+          end
+      | VRef h =>
+          match lookup s h with
+          | Some (PyDict it) => option_map (VOMap true) (items it)
+          | Some (PyList l) => option_map VOList (seq_opt (map (deepcopy f' s) l))
+          | None => None
+          end
+      end
+  end.
+
 (* `for k, v in data`: an element is a 2-tuple or a 2-element list *)
 Definition as_pair (s : store) (v : pyval) : option (pyval * pyval) :=
   match v with
-  | VTuple [k; x] => Some (k, x)
+  | VTuple [k; x] | VOList [k; x] => Some (k, x)
   | VRef h => match lookup s h with Some (PyList [k; x]) => Some (k, x) | _ => None end
   | _ => None
   end.
@@ -305,7 +339,7 @@ Definition tuplify (s : store) (v : pyval) : result pyval :=
     | None => Err EValueError
     end in
   match v with
-  | VTuple l => go l
+  | VTuple l | VOList l => go l
   | VRef h =>
       match lookup s h with
       | Some (PyList l) => go l
@@ -417,6 +451,8 @@ Fixpoint resolve (f : nat) (s : store) (v : pyval) : rval :=
       | VNone => RNone
       | VAtom a => RAtom a
       | VTuple l => RSeq false (map (resolve f' s) l)
+      | VOList l => RSeq true (map (resolve f' s) l)
+      | VOMap m it => RMap m (map (fun kv => (fst kv, resolve f' s (snd kv))) it)
       | VObj c fs => RObj c (map (resolve f' s) fs)
       | VIDict h =>
           match lookup s h with
@@ -445,7 +481,8 @@ Fixpoint safe (f : nat) (s : store) (hs : list handle) (v : pyval) : bool :=
   | S f' =>
       match v with
       | VNone | VAtom _ => true
-      | VTuple l | VObj _ l => forallb (safe f' s hs) l
+      | VTuple l | VObj _ l | VOList l => forallb (safe f' s hs) l
+      | VOMap _ it => forallb (fun kv => safe f' s hs (snd kv)) it
       | VIDict h | VRef h =>
           negb (memh h hs) &&
           match lookup s h with
@@ -606,16 +643,15 @@ Section WithHash.
             match assoc XH_KEY it with
             | None => Ok (vals, s)
             | Some xh =>
-                match freeze f s (VIDict hm), freeze f s xh with
-                | Some (VTuple pairs), Some xh' =>
-                    match seq_opt (map (as_kv s) pairs), tuplify s xh' with
-                    | Some kvs, Ok t =>
+                match deepcopy f s (VIDict hm), deepcopy f s xh with
+                | Some (VOMap _ kvs), Some xh' =>
+                    match tuplify s xh' with
+                    | Ok t =>
                         if atom_pairs t then
                           let (h', s') := alloc s (PyDict (dict_del XH_KEY kvs)) in
                           Ok (set_field K_XH t rows (set_field K_META (VIDict h') rows vals), s')
                         else Err ETypeError
-                    | _, Err e => Err e
-                    | None, _ => Err ETypeError
+                    | Err e => Err e
                     end
                 | _, _ => Err EOutOfFuel
                 end
